@@ -192,6 +192,9 @@ def net_faithful(li: int, rule_present: bool, permit: bool, ipi: int, pti: int, 
     assume(all_of(rng(swi, 0, 2), rng(dwi, 0, 2)))
     if part != "acl":
         assume(all_of(ipi == 0, pti == 0, pri == 0, slot == 0, permit, port_en, swi == 0, dwi == 0))
+    elif not rule_present or not router_on:
+        # the rule's fields cannot matter (no rule / router not ON reads as default): one representative rule
+        assume(all_of(ipi == 1, pti == 1, pri == 1, swi == 1, dwi == 2, permit))
     if part != "link":
         assume(li == 0)
     if part != "nmne":
